@@ -35,6 +35,16 @@ def lemmas(tier):
                                  "bytes, a non-empty strings block, truncation at every byte)" if dev else "consistent framing"),
                         bound="tags=%d, value words=%d, message <= 2 bytes, declared tape <= 6 words; uncompressed/unknown block types only" % (nt, nv),
                         expect_reach=["Z2.returned"]))
+    for T in ((0, 1, 2) if tier == "quick" else (0, 1, 2, 3, 4)):
+        ls.append(Lemma("Z5.deviation.T%d" % (T + 4), "verifHarness_Z5_Deviation", F, splits=[{"T": T}], split_depth="auto",
+                        intr=ChunkIntrinsics, scale=SCALE, opts={"make_assume_max": 24},
+                        desc="Deserialize on the tag stream of every well-formed tape of %d words (objects, arrays, strings, numbers, scalars, NOPs, nesting <= 2) with one "
+                             "tag byte free, all value words free and the value count off by -1..+2; on every accepted result one family of readers runs without panic "
+                             "and with progress: the iterator walkers/marshallers (as Z2), every Array accessor (AsFloat, AsInteger, AsUint64, AsString(Cvt), FirstType, "
+                             "Interface, MarshalJSON, ForEach, Iter) on every array the walk reaches, every Object accessor (NextElement(Bytes), FindKey, FindPath, ForEach, "
+                             "Map, Parse) on every object" % (T + 4),
+                        bound="declared tape = %d words, tags = those of a well-formed tape with one byte symbolic, all value words symbolic, message 2 bytes, fresh Serializer" % (T + 4),
+                        expect_reach=["Z5.returned", "Z5.accepted"]))
     return ls
 
 
